@@ -1427,6 +1427,9 @@ def _c16_registry(add, tier, TO):
     # C20: a suspended send_with_async = a reserved, unpublished slot whose owner went away
     q("C20", "c20_zc_atomic_suspended_vs_send_recv", "quick", "AtomicZeroCopy", 2, 0, ["reserve"], [["send"], ["recv"]])
     q("C20", "c20_zc_fullsync_suspended_vs_send_recv", "quick", "FullSyncZeroCopy", 2, 0, ["reserve"], [["send"], ["recv"]])
+    # exactly full: the suspended send holds one slot, the other BUFFER_SIZE-1 are queued -- one more send must be REJECTED promptly
+    q("C20", "c20_zc_atomic_suspended_full_vs_send", "quick", "AtomicZeroCopy", 2, 1, ["reserve"], [["send"]])
+    q("C20", "c20_zc_fullsync_suspended_full_vs_send", "quick", "FullSyncZeroCopy", 2, 1, ["reserve"], [["send"]])
     q("C20", "c20_atomic_suspended_vs_recv", "quick", "AtomicMove", 2, 1, ["reserve"], [["recv"], ["recv"]])
     q("C20", "c20_atomic_suspended_vs_send", "quick", "AtomicMove", 2, 0, ["reserve"], [["send"]])
     q("C20", "c20_fullsync_suspended_vs_send", "quick", "FullSyncMove", 2, 0, ["reserve"], [["send"]])
